@@ -12,7 +12,11 @@
                          'typedef struct ring_head ring_head; typedef struct ring_counter ring_counter;\n'
                          '// R8: std::allocator<char>: allocate(n) returns storage for exactly n elements; deallocate(p, n) releases it\n'
                          'static inline char *vc_allocate_char(size_t n) { return (char *)__CPROVER_allocate(n, 0); }\n'
-                         'static inline void vc_deallocate_char(char *p, size_t n) { (void)p; (void)n; }\n'},
+                         'static inline void vc_deallocate_char(char *p, size_t n) { (void)p; (void)n; }\n'
+                         '// std::vector<char>(n): n value-initialised elements in storage of exactly n elements; operator[] is unchecked (exact-size object: cbmc/ASan check it)\n'
+                         'typedef struct c03_vec { char *data; size_t n; } c03_vec;\n'
+                         'static inline c03_vec c03_vec_make(size_t n) { c03_vec v; v.data = (char *)__CPROVER_allocate(n, 1); v.n = n; return v; }\n'
+                         'static inline char *c03_vec_at(c03_vec *v, size_t i) { return v->data + i; }\n'},
   {'op': 'struct', 'file': 'igris/container/unbounded_array.h', 'name': 'unbounded_array', 'ctor': 'unbounded_array_defaults',
    'tparams': {'T': 'char'}, 'drop_fields': ['alloc']},
   # unbounded_array(size_t sz)
@@ -49,6 +53,12 @@
   {'op': 'func', 'file': 'igris/container/ring.h', 'name': 'last', 'in_class': 'ring', 'self': 'ring', 'as': 'ring_last', 'members': ['r', 'buffer'],
    'tparams': {'T': 'char'}, 'ret': 'char *', 'methods': {'fixup_index': 'ring_fixup_index_m'},
    'rewrite': [[r'return self->buffer\[([^;]*)\];', r'return unbounded_array_at(&self->buffer, \1);', 1]]},
+  # std::vector<T> get_last(int offset, int count, bool order_from_end): std::vector<char> is the exact-size stub c03_vec (glue above)
+  {'op': 'func', 'file': 'igris/container/ring.h', 'name': 'get_last', 'in_class': 'ring', 'self': 'ring', 'as': 'ring_get_last', 'members': ['r', 'buffer'],
+   'tparams': {'T': 'char'}, 'ret': 'c03_vec', 'methods': {'fixup_index': 'ring_fixup_index_m'},
+   'rewrite': [[r'std::vector<char> (\w+)\(([^;]*)\);', r'c03_vec \1 = c03_vec_make(\2);', 1, 'strict'],
+               [r'\bvec\[([^\]]*)\]', r'(*c03_vec_at(&vec, \1))', 0],
+               [r'self->buffer\[((?:[^\[\]]|\[[^\[\]]*\])*)\]', r'(*unbounded_array_at(&self->buffer, \1))', 0]]},
   {'op': 'func', 'file': 'igris/container/ring.h', 'name': 'tail', 'in_class': 'ring', 'self': 'ring', 'as': 'ring_tail', 'members': ['r', 'buffer'],
    'tparams': {'T': 'char'}, 'ret': 'char *',
    'rewrite': [[r'return self->buffer\[([^;]*)\];', r'return unbounded_array_at(&self->buffer, \1);', 1]]},
